@@ -29,36 +29,42 @@ inductive AcceptPath
   | unknown
 deriving DecidableEq, Repr
 
+/-- is `MultiLine.Run` protected against a second call (Line, RunnerQ, ProcChan use `startOnce`)? -/
+inductive RunGuard
+  | once        -- `startOnce.Do(…)` / started flag: a second `Run` starts nothing
+  | unguarded   -- `for i … { go c.popLoop(i) }` on every call: a second `Run` puts a second consumer on every lane
+  | unknown
+deriving DecidableEq, Repr
+
 structure Cfg where
   pchanAccept : AcceptPath
+  mlineRun : RunGuard
 deriving DecidableEq, Repr
 
 /-- configurations for which the property theorems are proved -/
-def Proved (c : Cfg) : Prop := c.pchanAccept = .stopFirst
+def Proved (c : Cfg) : Prop := c.pchanAccept = .stopFirst ∧ c.mlineRun = .once
 instance : DecidablePred Proved := fun c => by unfold Proved; exact inferInstance
 
-/-- shape facts of the source the model is written against (regenerated, compared with `expected`) -/
+/-- no lane of kind k can get a second consumer -/
+def RunGuarded (c : Cfg) (k : Kind) : Prop := c.mlineRun = .once ∨ k ≠ .mline
+instance (c : Cfg) (k : Kind) : Decidable (RunGuarded c k) := by unfold RunGuarded; exact inferInstance
+
+/-- shape facts of the source the model is written against (regenerated, compared with `expected`).
+Each is "every function of the group has exactly the canonical text (locals renamed) the model was validated against". -/
 structure Facts where
-  linePopAnyway : Bool        -- `Line.popLoop` pops with `PopAnyway`
-  mlinePopAnyway : Bool       -- `MultiLine.popLoop` pops with `PopAnyway`
-  runnerPopAnyway : Bool      -- `RunnerQ.popLoop` pops with `PopAnyway`
-  lineOneConsumer : Bool      -- `Run`: `startOnce.Do(… go c.popLoop())`
-  mlineConsumerPerSlot : Bool -- `Run`: `for i := 0; i < c.slotSize; i++ { go c.popLoop(i) }`
-  runnerOneConsumer : Bool
-  pchanOneConsumer : Bool
-  lineResBuffered : Bool      -- `rChan: make(chan AsyncR, 1)`; `SetR` sends, `R` selects ctx.Done / rChan
-  mlineResBuffered : Bool
-  runnerCloseWait : Bool      -- the three runner contexts: `defer close(c.wait)`, `r()` selects ctx.Done / wait
-  pchanCloseWait : Bool       -- `r(stopChan)` selects ctx.Done / stopChan / wait
-  skipsDoneCtx : Bool         -- runner + pchan `run()`: non-blocking test of ctx.Done before the call
-  stopOnceCloses : Bool       -- `Stop`: `stopOnce.Do(close queue(s) / close(stopChan))`
-  mlineLaneIsSlot : Bool      -- `addCallCtx` enqueues on `qs[NormalizeSlotIndex(hashIndex, slotSize)]`; `popLoop(index)` passes `index`
-  queueFifo : Bool            -- `pipe/q.Q` and `async.Q`: `AddReq/Add` = closed? full? PushBack; `pop` = Front, blocks while empty and open
-  ctxFreshPerCall : Bool      -- every accepted call owns a freshly allocated context object (constructors return a new
-                              -- literal; AsyncCall/AsyncDelegate/AsyncProc = add + wait, nothing recycled while queued)
+  popLoops : Bool     -- the four `popLoop`s: `PopAnyway` / `select ch|stopChan`, call with (ctx, [index,] param), `SetR`, `cc.run()`
+  runGuards : Bool    -- constructors + `Run` of Line / RunnerQ / ProcChan: `startOnce.Do(… go c.popLoop())` (MultiLine.Run: `Cfg.mlineRun`)
+  resultCells : Bool  -- `newAsyncCtx` (`rChan: make(chan AsyncR, 1)`), `SetR`, `R`, and the four `r()` selects
+  runBodies : Bool    -- whole `run()` of callCtxT / delegateCtxT / procCtxT / procChanCtxT: `defer close(wait)`, ctx-done skip,
+                      -- the callee is called with the caller's ctx and argument, result and error published before the close
+  stopBodies : Bool   -- `Stop` (`stopOnce.Do(close …)`), `MultiLine.stop/signalDone`, the `WaitStop`s
+  entryPoints : Bool  -- `AsyncCall/AsyncDelegate/AsyncProc`, `addXCtx`, the context constructors (a fresh object per call), `validateFn`
+  laneIsSlot : Bool   -- `MultiLine.addCallCtx` enqueues on `qs[NormalizeSlotIndex(hashIndex, slotSize)]`, `IndexOf`, `newMux`, `GetOption`
+  queueBodies : Bool  -- every function of `pipe/q.Q` and `async.Q` (FIFO list, closed/full checks, `Broadcast` on add and close, blocking pop)
+  queueLocks : Bool   -- every state-touching method of both queues takes `a.lock` first and releases it by `defer`
 deriving DecidableEq, Repr
 
-def Facts.expected : Facts := ⟨true, true, true, true, true, true, true, true, true, true, true, true, true, true, true, true⟩
+def Facts.expected : Facts := ⟨true, true, true, true, true, true, true, true, true⟩
 
 /-! ### the slot kernel -/
 
@@ -111,7 +117,9 @@ structure Lane where
   idx : Nat             -- index handed to the callee
   stopped : Bool        -- queue closed / stop channel closed
   queue : List Nat      -- call ids, oldest first
+  started : Bool        -- `Run` has been called: the consumer goroutine exists
   cons : Cons
+  cons2 : Option Cons   -- a second consumer on this lane (an unguarded `Run` called twice)
   calls : List CallRec
   next : Nat            -- every call id seen so far is below `next`
   log : List Ev         -- oldest first (ghost: the P-observable trace)
@@ -120,7 +128,7 @@ structure Lane where
 deriving DecidableEq, Repr
 
 def Lane.init (k : Kind) (cap idx : Nat) : Lane :=
-  { kind := k, cap := cap, idx := idx, stopped := false, queue := [], cons := .idle, calls := [],
+  { kind := k, cap := cap, idx := idx, stopped := false, queue := [], started := false, cons := .idle, cons2 := none, calls := [],
     next := 0, log := [], accepted := [], popped := [] }
 
 inductive LAct
@@ -130,6 +138,8 @@ inductive LAct
   | recv (id : Nat) (pick : Nat)       -- the caller's select: 0 result, 1 ctx.Done, 2 stopChan
   | cancel (id : Nat)
   | stop
+  | run                                -- `Run()`
+  | pop2                               -- one loop iteration of the second consumer (if any)
 deriving DecidableEq, Repr
 
 def getCall (l : Lane) (id : Nat) : Option CallRec := l.calls.find? (fun r => r.id == id)
@@ -143,7 +153,7 @@ def isCalleeRes : Res → Bool
   | _ => false
 
 /-- a send on ProcChan's channel can proceed -/
-def Lane.room (l : Lane) : Bool := l.queue.length < l.cap || (l.cons == .idle && l.queue.isEmpty)
+def Lane.room (l : Lane) : Bool := l.queue.length < l.cap || (l.started && l.cons == .idle && l.queue.isEmpty)
 
 def Lane.reject (l : Lane) (id : Nat) (r : Res) : Lane :=
   { l with calls := l.calls ++ [⟨id, false, false, none⟩], next := id + 1, log := l.log ++ [.ret id r] }
@@ -178,7 +188,8 @@ def Lane.step (cfg : Cfg) (l : Lane) : LAct → Option Lane
       else if 0 < l.cap && l.cap ≤ l.queue.length then some (l.reject id .full)
       else some (l.accept id)
   | .pop take =>
-    match l.cons with
+    if !l.started then none
+    else match l.cons with
     | .idle =>
       (match l.queue with
        | [] => if l.stopped then some l.doExit else none
@@ -189,6 +200,9 @@ def Lane.step (cfg : Cfg) (l : Lane) : LAct → Option Lane
   | .finish id r =>
     if l.cons == .running id && isCalleeRes r then
       some { l with cons := .idle, log := l.log ++ [.fin id r],
+                    calls := updCall l.calls id (fun c => { c with cell := some r }) }
+    else if l.cons2 == some (.running id) && isCalleeRes r then
+      some { l with cons2 := some .idle, log := l.log ++ [.fin id r],
                     calls := updCall l.calls id (fun c => { c with cell := some r }) }
     else none
   | .recv id pick =>
@@ -209,6 +223,18 @@ def Lane.step (cfg : Cfg) (l : Lane) : LAct → Option Lane
     | none => none
     | some _ => some { l with calls := updCall l.calls id (fun c => { c with ctxDone := true }) }
   | .stop => some { l with stopped := true }
+  | .run =>
+    if !l.started then some { l with started := true }
+    else if l.kind == .mline && cfg.mlineRun != .once && l.cons2 == none then some { l with cons2 := some .idle }
+    else some l
+  | .pop2 =>
+    match l.cons2 with
+    | some .idle =>
+      (match l.queue with
+       | [] => if l.stopped then some { l with cons2 := some .exited, log := l.log ++ [.exit l.idx] } else none
+       | c :: rest =>
+         some { l with queue := rest, popped := l.popped ++ [c], cons2 := some (.running c), log := l.log ++ [.start c l.idx] })
+    | _ => none
 
 /-- the lane as an LTS -/
 def laneLTS (cfg : Cfg) (k : Kind) (cap idx : Nat) : LTS Lane LAct :=
@@ -274,7 +300,7 @@ def firstRecv (l : Lane) : List CallRec → Option (Nat × Nat)
     | none => firstRecv l cs
 
 def Lane.ambiguous (l : Lane) : Bool :=
-  l.kind == .pchan && l.stopped && l.cons == .idle && !l.queue.isEmpty
+  l.kind == .pchan && l.started && l.stopped && l.cons == .idle && !l.queue.isEmpty
 
 def settleLane (cfg : Cfg) : Nat → Lane → List Lane
   | 0, l => [l]
@@ -291,7 +317,10 @@ def settleLane (cfg : Cfg) : Nat → Lane → List Lane
       else
         match l.step cfg (.pop true) with
         | some l' => settleLane cfg n l'
-        | none => [l]
+        | none =>
+          match l.step cfg .pop2 with
+          | some l' => settleLane cfg n l'
+          | none => [l]
 
 def Lane.fuel (l : Lane) : Nat := 2 * (l.calls.length + l.queue.length) + 4
 
@@ -323,18 +352,21 @@ def laneOf (slot : Slot) (k : Kind) (nlanes : Nat) (hash : BitVec 64) : Option N
 
 inductive XAct
   | submit (hash : BitVec 64) (enq : Bool)
-  | lane (i : Nat) (a : LAct)          -- an action of lane i other than submit / stop
+  | lane (i : Nat) (a : LAct)          -- an action of lane i other than submit / stop / run
   | stop
+  | run
 deriving DecidableEq, Repr
 
 def isLocal : LAct → Bool
   | .submit _ _ => false
   | .stop => false
+  | .run => false
   | _ => true
 
-def stopAll (cfg : Cfg) : List Lane → List Lane
+/-- `Stop` / `Run` act on every lane -/
+def allLanes (cfg : Cfg) (a : LAct) : List Lane → List Lane
   | [] => []
-  | l :: ls => (match l.step cfg .stop with | some l' => l' | none => l) :: stopAll cfg ls
+  | l :: ls => (match l.step cfg a with | some l' => l' | none => l) :: allLanes cfg a ls
 
 def Exec.step (cfg : Cfg) (slot : Slot) (x : Exec) : XAct → Option Exec
   | .submit hash enq =>
@@ -356,7 +388,8 @@ def Exec.step (cfg : Cfg) (slot : Slot) (x : Exec) : XAct → Option Exec
       | some l => match l.step cfg a with
         | none => none
         | some l' => some { x with lanes := x.lanes.set i l' }
-  | .stop => some { x with lanes := stopAll cfg x.lanes }
+  | .stop => some { x with lanes := allLanes cfg .stop x.lanes }
+  | .run => some { x with lanes := allLanes cfg .run x.lanes }
 
 def execLTS (cfg : Cfg) (slot : Slot) (k : Kind) (nlanes cap : Nat) : LTS Exec XAct :=
   { init := Exec.init k nlanes cap, step := Exec.step cfg slot }
